@@ -116,7 +116,8 @@ def read_mrc(path):
 
 
 def write_mrc(path, dims, dtype, values):
-    """Write a minimal valid MRC2014 file from scratch: dims = (nx, ny, nz), values flat, x fastest."""
+    """Write a minimal valid MRC2014 volume from scratch: dims = (nx, ny, nz), values flat, x fastest.
+    (ispg is 1 for every nz: with ispg = 0 and nz = 1 the file would be a single 2-D image, which is not a map.)"""
     nx, ny, nz = dims
     mode = MRC_CODES[dtype]
     ch = MRC_MODES[mode][0]
@@ -133,7 +134,7 @@ def write_mrc(path, dims, dtype, values):
     struct.pack_into("<3f", head, 52, 90.0, 90.0, 90.0)         # cell angles
     struct.pack_into("<3i", head, 64, 1, 2, 3)                  # mapc mapr maps
     struct.pack_into("<3f", head, 76, dmin, dmax, dmean)
-    struct.pack_into("<2i", head, 88, 1 if nz > 1 else 0, 0)    # ispg, nsymbt
+    struct.pack_into("<2i", head, 88, 1, 0)                     # ispg = 1 (a 3-D volume, also when nz = 1), nsymbt
     head[104:108] = b"\x00\x00\x00\x00"                         # exttyp
     struct.pack_into("<i", head, 108, 20140)                    # nversion
     head[208:212] = b"MAP "
